@@ -20,16 +20,19 @@ PROP = "C10"
 RULE = (
     "(machine) random histories of up to 25 (quick) / 50 (thorough) steps on a GFF3 database (two thirds) or a GTF-importer "
     "database with inference off (one third) over update(records from a 15-/12-record pool that shares ids and Parent / "
-    "transcript / gene values, GFF3 up to depth 4; strategy in the five; input as list, generator or text path; make_backup), "
+    "transcript / gene values, GFF3 up to depth 4; strategy in the five; input as list, generator, list iterator, map object, constructor-built Features or text path; make_backup), "
     "delete(ids / Features / missing id; make_backup), add_relation(fresh pair, level 1/2), reopen, empty update, and a "
-    "faulty update whose source raises after k items; snapshot compared with the model after every step. (exhaustive) all "
+    "faulty update whose source raises after k items (while the dialect is inferred, or mid-import under a short checklines window), "
+    "followed by one more id-less update on the same handle; snapshot compared with the model after every step. (exhaustive) all "
     "operation sequences up to depth 3 (quick) / 4 (thorough) over a fixed 8-operation alphabet. Non-trivial history = a "
     "delete followed by an update that re-adds or auto-numbers, or a reopen between two updates, or a faulted update. "
     "Histories are distinct by hash of their operation list."
 )
 ASSUMPTIONS = [
     "file databases; the feature source of a faulty update fails by raising an exception (no process crash / disk fault injection)",
-    "after an update that raises (strategy 'error' on a duplicate, or a failing source) only the '.bak' promise is checked and the history ends",
+    "after an update that raises (strategy 'error' on a duplicate, or a failing source) the '.bak' promise is checked and the model stops "
+    "(what a failed update leaves behind is unspecified); after a failing source one more update with id-less features is made through "
+    "the same handle: it must succeed and its auto-generated keys must be none a stored feature has or ever had; then the history ends",
     "'replace' updates never change the Parent of the replaced feature (that is known finding D11 of C05); counted as excluded",
     "add_relation is only generated for pairs not yet related at that level (a duplicate raises IntegrityError by design of the schema)",
 ]
@@ -127,6 +130,7 @@ class History(object):
             self.rel |= self.m._line_links(fid, rec)
         self._close2()
         self.init = dbsnap.snapshot(self.db)
+        self.ever_stored = set()
         self.ops = []
         self.ended = False
         self.flags = set()
@@ -153,6 +157,7 @@ class History(object):
     def compare(self, what):
         snap = dbsnap.snapshot(self.db)
         self.last_snap = snap
+        self.ever_stored.update(r["id"] for r in snap["features"])
         got = dict((r["id"], r) for r in snap["features"])
         if len(got) != len(snap["features"]):
             return Failure("%s: duplicate ids in the features table" % what, sig={"kind": "dup-ids"})
@@ -341,6 +346,10 @@ class History(object):
             data = gen()
         elif form == "list":
             data = [feature_from_line(l) for l in lines]
+        elif form == "list_iterator":
+            data = iter([feature_from_line(l) for l in lines])  # one-shot, but not a generator object
+        elif form == "map":
+            data = map(feature_from_line, lines)
         elif form == "constructed":
             # Feature objects built through the constructor (they carry the default dialect, not the file's)
             from gffutils.feature import Feature
@@ -395,6 +404,10 @@ class History(object):
             bad = None
             if op["backup"]:
                 bad = self.check_backup(before, what)
+            if bad is None and faulty:
+                raised = None
+                gc.collect()  # the failed importer (a second connection holding the write lock) goes away with its last reference
+                bad = self._after_fault()
             # release the second connection's write lock before the scratch files go away
             try:
                 self.db.conn.close()
@@ -416,6 +429,32 @@ class History(object):
         if bad is None and op["backup"]:
             bad = self.check_backup(before, "update")
         return bad
+
+    def _after_fault(self):
+        """What a failed update left behind is not modelled; but the same handle can go on, and an auto-generated key it
+        hands out next is none that a stored feature has or ever had."""
+        ever = set(self.ever_stored)
+        now = dbsnap.snapshot(self.db)
+        have = set(r["id"] for r in now["features"])
+        ever |= have
+        idless = [r for r in self.pool if _rec(r)["id"] is None][:2]
+        from gffutils.feature import feature_from_line
+
+        try:
+            self.db.update([feature_from_line(tm.render_line(r, self.F["dialect"])) for r in idless], make_backup=False,
+                           merge_strategy="error", **self.F["kw"])
+        except ValueError as e:
+            return Failure("after a failed update, an update with %d id-less features on the same handle raised %s: %s"
+                           % (len(idless), type(e).__name__, e), sig={"kind": "auto-id-reused-after-fault"})
+        new = set(r["id"] for r in dbsnap.snapshot(self.db)["features"]) - have
+        if len(new) != len(idless):
+            return Failure("after a failed update, %d id-less features were added but %d new ids appeared: %r" % (len(idless), len(new), sorted(new)),
+                           sig={"kind": "auto-id-reused-after-fault"})
+        if new & ever:
+            return Failure("after a failed update, auto-generated keys %r equal keys stored earlier" % sorted(new & ever),
+                           sig={"kind": "auto-id-reused-after-fault"})
+        self.flags.add("continued-after-fault")
+        return None
 
     def nontrivial(self):
         return bool({"re-added", "update-reopen-update", "faulted"} & self.flags) or (
@@ -513,7 +552,7 @@ class MachineLeg(_Base):
 
             @rule(recs=st.lists(st.integers(0, len(POOL) - 1), min_size=1, max_size=4),
                   strategy=st.sampled_from(STRATEGIES + ["merge", "create_unique", "warning", "replace", "merge", "create_unique"]),
-                  form=st.sampled_from(["list", "generator", "path", "constructed"]), backup=st.booleans(),
+                  form=st.sampled_from(["list", "generator", "path", "constructed", "list_iterator", "map"]), backup=st.booleans(),
                   checklines=st.sampled_from([None, None, 0, 1, 10]))
             def update(self, recs, strategy, form, backup, checklines):
                 self._do({"op": "update", "recs": recs, "strategy": strategy, "form": form, "backup": backup, "checklines": checklines})
@@ -537,10 +576,13 @@ class MachineLeg(_Base):
 
             @precondition(lambda self: self.skip or (self.h is not None and not self.h.ended and len(self.h.ops) >= 4))
             @rule(recs=st.lists(st.integers(0, len(POOL) - 1), min_size=1, max_size=4), k=st.integers(0, 4),
-                  strategy=st.sampled_from(["create_unique", "merge", "warning"]), backup=st.booleans(), really=st.integers(0, 2))
-            def faulty_update(self, recs, k, strategy, backup, really):
+                  strategy=st.sampled_from(["create_unique", "merge", "merge", "warning"]), backup=st.booleans(), really=st.integers(0, 2),
+                  checklines=st.sampled_from([None, 0, 0, 1]))
+            def faulty_update(self, recs, k, strategy, backup, really, checklines):
                 if really == 0:
-                    self._do({"op": "faulty_update", "recs": recs, "k": k, "strategy": strategy, "form": "generator", "backup": backup})
+                    # with the default window the source fails while the dialect is being inferred; with a short window, mid-import
+                    self._do({"op": "faulty_update", "recs": recs, "k": k, "strategy": strategy, "form": "generator", "backup": backup,
+                              "checklines": checklines})
                 else:
                     self._do({"op": "update", "recs": recs, "strategy": strategy, "form": "generator", "backup": backup})
 
@@ -578,7 +620,7 @@ ALPHABET = [
     {"op": "update", "recs": [3], "strategy": "merge", "form": "list", "backup": False, "checklines": 0},
     {"op": "update", "recs": [4, 5], "strategy": "create_unique", "form": "generator", "backup": True},
     {"op": "update", "recs": [10, 14, 7], "strategy": "warning", "form": "path", "backup": False},
-    {"op": "update", "recs": [5, 13], "strategy": "error", "form": "list", "backup": False},
+    {"op": "update", "recs": [5, 13], "strategy": "error", "form": "list_iterator", "backup": False},
     {"op": "delete", "targets": [2], "as": "generator", "backup": True},
     {"op": "delete", "targets": [17], "as": "relation-only", "backup": False},
     {"op": "reopen"},
@@ -597,6 +639,8 @@ MERGE_ALPHABET = [
     {"op": "delete", "targets": [2], "as": "id", "backup": False},
     {"op": "delete", "targets": [3], "as": "feature", "backup": False},
     {"op": "reopen"},
+    # the source fails mid-import (short inspection window), after an id-less line and a line that 'merge' files under <key>_1
+    {"op": "faulty_update", "recs": [5, 4, 13, 5], "k": 3, "strategy": "merge", "form": "generator", "backup": True, "checklines": 0},
 ]
 
 
